@@ -20,7 +20,9 @@ def rowsSlice (A : List (List α)) (i j : Int) : List (List α) :=
 
 def zeroRows (k : Nat) (nc : Nat) : List (List α) := List.replicate k (List.replicate nc 0)
 
-/-- `_extract_waveform(traces, sample, channel_ids, n_samples_waveforms)` -/
+/-- `_extract_waveform(traces, sample, channel_ids, n_samples_waveforms)`, traces.py:589-614.  Sample and window
+length are Python integers there (`int(sample)`, `nsw = int(n_samples_waveforms)`): `s : Int`, `n : Nat`, and
+`t0 = s - n/2` may be negative — with an unsigned NumPy sample or window length the difference used to wrap. -/
 def extractWaveform (A : List (List α)) (s : Int) (n : Nat) (ch : List Int) : List (List α) :=
   let dur : Int := A.length
   let a : Int := n / 2
@@ -142,14 +144,36 @@ load as an array of its declared shape (the exception is caught and the store is
 def loadSubset (f : SubsetFiles α) : Option (Store α) :=
   (npLoad f.waveforms).map fun w => { spikeIds := f.spikes, spikeChannels := f.channels, waveforms := w }
 
-/-- `TemplateModel.get_waveforms(spike_ids, channel_ids)` with raw data present, model.py:973-998: the store
-route when a store is loaded, falling back to the raw data when `get_spike_waveforms` raises AssertionError
-(a requested spike is not stored); the raw-data route otherwise -/
-def getWaveforms (store : Option (Store α)) (A : List (List α)) (spikeSamples : List Int)
-    (query : List Nat) (chq : List Nat) (n : Nat) : List (List (List α)) :=
-  let raw := extractWaveforms A (query.map fun q => spikeSamples.getD q 0) n (chq.map Int.ofNat)
+/-- the three `assert`s of `get_spike_waveforms` (traces.py:527-537): every requested spike is stored
+(`assert np.all(np.isin(spike_ids, spike_waveforms.spike_ids))`), `assert nsw > 0`, `assert nc > 0`.  `false` = the
+call raises AssertionError — the ONLY exception `TemplateModel.get_waveforms` catches. -/
+def lookupAsserts (st : Store α) (query : List Nat) (chq : List Nat) (n : Nat) : Bool :=
+  query.all st.spikeIds.contains && !(n == 0 || chq.isEmpty)
+
+/-- `TemplateModel.get_waveforms(spike_ids, channel_ids)` with raw data present, model.py:973-998, with its
+exceptions: `none` = the call raises.
+* no store: the raw-data route, `extract_waveforms` (`assert nsw > 0`, traces.py:621);
+* a store is loaded: `get_spike_waveforms`; `except AssertionError` (model.py:989) — a requested spike is not
+  stored, `nsw = 0`, no query channel — falls back to the raw-data route for EVERY requested spike; any other
+  exception of the lookup is NOT caught and propagates: the IndexError of a store whose three arrays do not have
+  the same number of rows (`getSpikeWaveforms … = none` although the assertions hold).
+The query channels are signed integers after `np.asarray(channel_ids, dtype=np.int64)` at the top of
+`get_spike_waveforms` (with a uint64 array `np.intersect1d` against the int32 channel table used to return
+float64 values, unusable as indices: IndexError, and no fallback). -/
+def getWaveformsE (store : Option (Store α)) (A : List (List α)) (spikeSamples : List Int)
+    (query : List Nat) (chq : List Nat) (n : Nat) : Option (List (List (List α))) :=
+  let raw : Option (List (List (List α))) :=
+    if n == 0 then none
+    else some (extractWaveforms A (query.map fun q => spikeSamples.getD q 0) n (chq.map Int.ofNat))
   match store with
   | none => raw
-  | some st => (getSpikeWaveforms st query chq n).getD raw
+  | some st => if lookupAsserts st query chq n then getSpikeWaveforms st query chq n else raw
+
+/-- `getWaveformsE` with every exception read as "the raw data": the totalised view used where only the
+returned windows matter (the C10 driver).  Extensionally `(getSpikeWaveforms …).getD raw`. -/
+def getWaveforms (store : Option (Store α)) (A : List (List α)) (spikeSamples : List Int)
+    (query : List Nat) (chq : List Nat) (n : Nat) : List (List (List α)) :=
+  (getWaveformsE store A spikeSamples query chq n).getD
+    (extractWaveforms A (query.map fun q => spikeSamples.getD q 0) n (chq.map Int.ofNat))
 
 end PhyVerif.C03
